@@ -80,7 +80,9 @@ def build_group(hdir, target_dir, log_path, extra_args=()):
     with open(log_path, "w") as lf:
         r = subprocess.run(cmd, cwd=hdir, env=_env(), stdout=lf, stderr=subprocess.STDOUT)
     if r.returncode != 0:
-        tail = open(log_path).read()[-3000:]
+        txt = open(log_path, errors="replace").read()
+        errs = re.findall(r"^error(?:\[E\d+\])?:.*(?:\n(?!error|warning).*){0,14}", txt, re.M)
+        tail = "\n".join(errs)[:3000] if errs else txt[-3000:]
         raise Inconclusive("harness group %s does not build against the current tree "
                            "(cargo kani --only-codegen exit %d):\n%s"
                            % (os.path.basename(hdir), r.returncode, tail))
